@@ -25,6 +25,8 @@ Protocol (one case = one schema + one Chaperone):
   tables <pattern ids> <repair ids>      re-assign the addressed instance's public regex tables (ids 5 / 10 = extra entries)
   map <fn>                               FoldedProtein.map on the last plain report -> valid structId err echo attempts called
   heal <max_retries> <decay> <hex,hex,…> ChaperoneLoop.heal with a scripted generator -> outcome final tagged [attempts] folded: …
+  healr <max_retries> <decay> <hex,…>    the same, on the ChaperoneLoop OBJECT of the previous healing run for this instance and class
+                                         (generator / max_retries / confidence_decay re-assigned): a history on one wrapper
   schema <spec> (again)                  another schema class of the same name on the same Chaperones
   list <strategies>                      the caller creates a list object and keeps it (list number = order of creation)
   newl <j>                               Chaperone(strategies=<the caller's list j>): a non-empty list is KEPT by the instance
@@ -825,6 +827,7 @@ class C11(Prop):
         hooklog = []             # user callbacks invoked during the current fold
         h_done = set()
         wrappers = []            # the library's own wrapper objects that were handed an instance stay alive
+        loops = {}               # (instance, schema class) -> the ChaperoneLoop of the last healing run (`healr` re-uses it)
 
         reent = {"depth": 0, "off": False, "inner": []}
         cur_S = [S]              # the schema class in force (on_misfold is per instance, not per class)
@@ -1297,7 +1300,7 @@ class C11(Prop):
                               inner["error"], icalls, iinfo)
                 hooklog[:] = outer_hooklog
                 del reent["inner"][:]
-            elif t[0] == "heal" and len(t) == 4:
+            elif t[0] in ("heal", "healr") and len(t) == 4:
                 outs = [unhexs(h) for h in t[3].split(",")]
                 ch = current()
                 ctor = "".join(owns[chs.index(ch)])
@@ -1338,8 +1341,14 @@ class C11(Prop):
                 err = None
                 r = None
                 try:
-                    loop = self.loop_mod.ChaperoneLoop(generator=scripted, chaperone=ch, schema=S, max_retries=int(t[1]),
-                                                       confidence_decay=float(Fraction(t[2])), silent=True)
+                    loop = loops.get((inst_i, id(S))) if t[0] == "healr" else None
+                    if loop is None:
+                        loop = self.loop_mod.ChaperoneLoop(generator=scripted, chaperone=ch, schema=S, max_retries=int(t[1]),
+                                                           confidence_decay=float(Fraction(t[2])), silent=True)
+                        loops[(inst_i, id(S))] = loop
+                    else:
+                        # the SAME wrapper object heals again: its public fields are re-assigned
+                        loop.generator, loop.max_retries, loop.confidence_decay = scripted, int(t[1]), float(Fraction(t[2]))
                     r = loop.heal("prompt")
                 except Exception as e:
                     err = e
@@ -1911,7 +1920,7 @@ class C11(Prop):
         if len(set(bads)) > 1 and k > 4:
             bads = [bads[0]] * k                       # long histories: keep the protocol small
         max_retries = rng.choice([0, 1, 2, 3, 3, 5, 12, k, max(0, k - 1)])
-        return f"heal {max_retries} {rng.choice(self.DECAYS)} " + ",".join(hexs(o) for o in bads + [good])
+        return f"{rng.choice(['heal', 'heal', 'healr'])} {max_retries} {rng.choice(self.DECAYS)} " + ",".join(hexs(o) for o in bads + [good])
 
     def variant_fields(self, rng, fields):
         swap = {"int": "str", "str": "int", "float": "str", "bool": "str", "li": "ls", "ls": "li", "oi": "os", "os": "oi",
@@ -2062,7 +2071,8 @@ class C11(Prop):
                 L = [f"schema {spec}", f"newh none {co} {mf}"]
                 for outs, n in [([good], 0), ([bad, good], 1), ([bad, bad, prose3], 3), ([bad, bad], 1), ([sq], 0), ([prose3, good], 2)]:
                     L.append(f"heal {n} 1/4 " + ",".join(hexs(o) for o in outs))
-                L += ["stats", f"foldx {hexs(good)} none", f"fold {hexs(bad)} none", "stats"]
+                L += ["stats", f"healr 2 1/4 {hexs(bad)},{hexs(good)}", f"healr 0 1/2 {hexs(prose3)}", f"healr 1 0 {hexs(bad)}",
+                      f"foldx {hexs(good)} none", f"fold {hexs(bad)} none", "stats"]
                 hook_cases.append({"lines": L, "note": "the healing loop over an instance with callbacks: co-chaperone x on_misfold x "
                                                        "misfolds before a foldable text"})
         alias_cases = []
